@@ -109,6 +109,14 @@ func c04Body(x *mc.Exec) {
 
 	mk := func(d TypeD, id string, set map[string]any) j.Resource {
 		r := d.NewRes(soft)
+		if sr, ok := r.(*j.SoftResource); ok && selU == 2 {
+			// hand-declared relationships may leave FromType empty (or stale after a
+			// type was copied and renamed): the data request is by the resource's type
+			for n, rel := range sr.Type.Rels {
+				rel.FromType = map[bool]string{true: "", false: "othertype"}[rdU == 0]
+				sr.Type.Rels[n] = rel
+			}
+		}
 		r.Set("id", id)
 		for k, v := range set {
 			r.Set(k, v)
